@@ -48,6 +48,10 @@ fn main() {
                 "C01" => rnv::c01::main(&ctx),
                 "C14" => rnv::c14::main(&ctx),
                 "C19" => rnv::c19::main(&ctx),
+                "C08" => rnv::c08::main(&ctx),
+                "C11" | "C12" => rnv::c1112::main(&ctx),
+                "C09" => rnv::c09::main(&ctx),
+                "C18" => rnv::c18::main(&ctx),
                 "C03" => rnv::c02::main(&ctx, rnv::logmodel::Profile::Truncation),
                 _ => {
                     eprintln!("unknown property {}", id);
@@ -62,6 +66,56 @@ fn main() {
             }
             let code = rnv::node::node_main(&args[2]);
             unsafe { libc::_exit(code) }
+        }
+        "__smoke-cluster" => {
+            let work = std::path::PathBuf::from("/verif/work/smoke");
+            std::fs::create_dir_all(&work).ok();
+            let mut env = std::collections::BTreeMap::new();
+            env.insert("RNACOS_RAFT_SNAPSHOT_LOG_SIZE".to_string(), "20".to_string());
+            let mut c = rnv::cluster::Cluster::new(&work, "c1", 3, std::process::id() as u64, env).unwrap();
+            let t0 = Instant::now();
+            c.start_node(0).unwrap();
+            println!("wait http 0: {:?}", c.wait_http(0, 20));
+            c.start_node(1).unwrap();
+            c.start_node(2).unwrap();
+            println!("wait http 1: {:?} 2: {:?}", c.wait_http(1, 20), c.wait_http(2, 20));
+            println!("quiescent: {:?} after {:?}", c.wait_quiescent(40), t0.elapsed());
+            for i in 0..3 {
+                println!("metrics {}: {:?}", i, c.metrics(i).map(|m| m.to_string()));
+            }
+            println!("publish via node2: {:?}", c.publish(1, "", "DEFAULT_GROUP", "a.txt", "hello"));
+            println!("quiescent: {:?}", c.wait_quiescent(20));
+            for i in 0..3 {
+                println!("get {}: {:?}", i, c.get(i, "", "DEFAULT_GROUP", "a.txt"));
+            }
+            c.cleanup();
+            std::process::exit(0);
+        }
+        "__smoke-latejoin" => {
+            let work = std::path::PathBuf::from("/verif/work/smoke2");
+            std::fs::create_dir_all(&work).ok();
+            let mut env = std::collections::BTreeMap::new();
+            env.insert("RNACOS_RAFT_SNAPSHOT_LOG_SIZE".to_string(), "20".to_string());
+            env.insert("RUST_LOG".to_string(), "info".to_string());
+            let mut c = rnv::cluster::Cluster::new(&work, "c1", 2, std::process::id() as u64, env).unwrap();
+            c.start_node(0).unwrap();
+            println!("wait http 0: {:?}", c.wait_http(0, 20));
+            println!("quiescent: {:?}", c.wait_quiescent(20));
+            for i in 0..90 {
+                let _ = c.publish(0, "", "DEFAULT_GROUP", &format!("k{}", i % 7), &format!("v{}", i));
+            }
+            c.start_node(1).unwrap();
+            println!("wait http 1: {:?}", c.wait_http(1, 20));
+            for r in 0..12 {
+                std::thread::sleep(std::time::Duration::from_secs(2));
+                println!("publish after join: {:?}", c.publish(0, "", "DEFAULT_GROUP", "late", &format!("x{}", r)));
+                println!("m0 {:?}", c.metrics(0).map(|m| m.to_string()));
+                println!("m1 {:?}", c.metrics(1).map(|m| m.to_string()));
+            }
+            println!("LOG0 {}", c.log_tail(0));
+            println!("LOG1 {}", c.log_tail(1));
+            c.shutdown();
+            std::process::exit(0);
         }
         "__c04-record" => {
             if args.len() < 4 {
